@@ -213,6 +213,14 @@ theorem window_and_limit_partial (o : Oracles) (ao : AggOracles) (hp : PermInv a
 theorem render_wellformed (c : Ctx) (script : Script) (X : Sel) (h : plan c script = .ok X) : wfS X = true :=
   plan_wf c script X h
 
+/-- the byte-level half of well-formedness: balanced parentheses of the rendered statement whenever no request
+    string contains a parenthesis (for other strings the token structure is the same, C10). Compiled,
+    **not proved**; every real statement is lexed and checked by the `syntax` stream instead. -/
+def render_balanced_full : Prop :=
+  ∀ (c : Ctx) (script : Script) (X : Sel), plan c script = .ok X →
+    (∀ s ∈ [c.attrsTable, c.tracesTable, c.tracesDistTable] ++ c.cached, balancedB (b s) = true ∧ ¬ (b s).contains 40) →
+    balancedB (renderSel X) = true
+
 /-- the shape of the defect A22: a conjunction with an empty disjunction as operand is not well formed -/
 theorem empty_clause_not_wellformed (x : Expr) : wfE (and_ [x, or_ []]) = false := by
   simp [and_, or_, wfE, wfEs]
@@ -231,6 +239,7 @@ example : DurConsistent ⟨[]⟩ := fun a ha => by simp at ha
 example : ctx0.rndMax = 0 := rfl
 example : (match rootSel ctx0 script0 with | .ok _ => true | .error _ => false) = true := by decide +kernel
 example : (match plan ctx0 script0 with | .ok _ => true | .error _ => false) = true := by decide +kernel
+
 example : ∀ p ∈ script0, SelOk p.1 := by
   have hk : termA.key ≠ termD.key := by decide +kernel
   intro p hp
